@@ -24,6 +24,14 @@ const (
 	LieCount      = "count"       // wrong number of filter hashes
 	LieShortCP    = "short-cp"    // checkpoint list one entry short
 	LieLongCP     = "long-cp"     // checkpoint list with a bogus extra entry
+	// LieRejoin is a MODIFIER of the other lies of the same liar: from Height
+	// on the liar pretends nothing happened. Its cfcheckpt entries at heights
+	// >= Height are the TRUE filter headers (below they follow from its false
+	// filter hashes), and cfheaders requests starting above Height are
+	// answered honestly. The list is thus false at the older checkpoint
+	// heights only, and the cfheaders are consistent with the list wherever
+	// that is possible.
+	LieRejoin = "cp-rejoin"
 )
 
 // ProvableLies are the lie kinds whose falsity the client can prove.
@@ -271,9 +279,13 @@ func (l *Liar) Mutate(p *Peer, req wire.Message, honest []wire.Message) []wire.M
 			return honest
 		}
 		hdrs := l.headers(stop)
+		rejoin := l.has(LieRejoin)
 		resp := wire.NewMsgCFCheckpt(t.FilterType, &t.StopHash, int(stop.Height/wire.CFCheckptInterval)+1)
 		for h := int32(wire.CFCheckptInterval); h <= stop.Height; h += wire.CFCheckptInterval {
 			fh := hdrs[h]
+			if rejoin != nil && h >= rejoin.Height {
+				fh = stop.Ancestor(h).FilterHeader
+			}
 			if lie := l.has(LieCheckpt); lie != nil && lie.Height == h {
 				l.rng.Read(fh[:])
 				l.told(p, stop.Ancestor(h).Hash, LieCheckpt)
@@ -298,6 +310,9 @@ func (l *Liar) Mutate(p *Peer, req wire.Message, honest []wire.Message) []wire.M
 		}
 		stop := g.Lookup(t.StopHash)
 		if stop == nil {
+			return honest
+		}
+		if rj := l.has(LieRejoin); rj != nil && int64(t.StartHeight)-1 >= int64(rj.Height) {
 			return honest
 		}
 		hdrs := l.headers(stop)
